@@ -102,6 +102,8 @@ def _frames_or_early(key, call, hello):
       'timeout_ms': st.sampled_from([None, 50, 80, 1000, 10000]),
       # while a call that the peer never answers is pending, another (answered) call goes out on the connection
       'bystander': st.booleans(),
+      # most bytes a single send() accepts
+      'send_max': st.sampled_from([None, None, 1, 7, 64, 4096]),
       'calls': st.lists(weighted((2, call), (1, hello)), min_size=1, max_size=4),
   }).map(_fix_svc)
 
@@ -166,6 +168,7 @@ def _exec_headers(plan):
 def _exec_frames(plan):
   net = SimNet()
   net.install()
+  net.send_max = plan.get('send_max')
   calls = plan['calls']
   cur = {'i': 0}
 
